@@ -12,6 +12,12 @@
 //! The oracle reads every UPDATE as RFC 4271 4.3 says: a prefix that one UPDATE both
 //! withdraws and announces is expected as its announcement only (`explode_update`,
 //! /repo commit 2186599; variant site `overlap`).
+//! Variant site `dumpreg`: the peer index loop of `process_file` registers a fresh id per entry of every dump
+//! (as written) / calls `find_or_register_peer` (repaired). The oracle judges "one peer, one id" on the real
+//! register itself: an identity (this unit, address, ASN) that holds two ids is a failure, under the signature
+//! `mrt-in:dump-registers-known-peer-again` when the later id was registered by a peer index loop (it carries a
+//! file name), `mrt-in:attribution-unstable` when by a message; the expected number of ids of a fully importable
+//! queue is the number of distinct peers it names.
 use std::io::Write as _;
 use std::net::IpAddr;
 use std::path::{Path, PathBuf};
@@ -348,15 +354,32 @@ fn oracle(files: &[FileSpec], o: &RunObs) -> String {
     }
     let mut known = vec![];
     let toks: Vec<(bool, Vec<Tok>)> = files.iter().map(|f| { let g = file_is_good(f); (g, tolerant(f, &mut known, g)) }).collect();
-    // attribution is stable: when every file is importable, exactly one id exists per peer-index entry and one per
-    // peer first seen in a message (a message of a known peer must reuse its id, or later withdrawals miss its routes)
+    // attribution is stable, judged on the real register: one peer, one id. No identity (parent = this unit,
+    // address, ASN) may hold two ingress ids, whatever became of the files: `find_existing_peer` answers one of
+    // them (hash-map order), so an Established->Idle state change withdraws the routes of one id only and a
+    // query lists the peer twice. Who registered the later id tells the mechanism: the peer index loop stores
+    // the file name, `process_message` does not.
+    for (k, (id, info)) in o.infos.iter().enumerate() {
+        if info.parent_ingress != Some(1) || info.remote_addr.is_none() || info.remote_asn.is_none() { continue; }
+        if let Some((first, _)) = o.infos[..k].iter().find(|(_, x)| x.parent_ingress == info.parent_ingress && x.remote_addr == info.remote_addr && x.remote_asn == info.remote_asn) {
+            let who = peer_of(&o.infos, *id).map(|(_, p)| show_peer(&p)).unwrap_or("?".into());
+            return if info.filename.is_some() {
+                format!("fail mrt-in:dump-registers-known-peer-again peer {who} already held ingress id {first} and a peer index table registered it again as id {id} (no lookup in process_file's peer index loop): one peer, two ids")
+            } else {
+                format!("fail mrt-in:attribution-unstable peer {who} already held ingress id {first} and a message registered it again as id {id}: messages of a known peer did not reuse its id")
+            };
+        }
+    }
+    // ... and when every file is importable exactly one id exists per distinct peer named by a peer index entry
+    // or an UPDATE (a known peer must reuse its id, or later withdrawals miss its routes)
     if files.iter().all(file_is_good) {
-        let mut seen: Vec<Peer> = vec![]; let mut n = 2u32;
+        let mut seen: Vec<Peer> = vec![];
         for f in files { for r in &f.recs { match r {
-            Rec::PeerIndex(ps) => { n += ps.len() as u32; for p in ps { if !seen.contains(p) { seen.push(p.clone()); } } }
-            Rec::Msg { peer, bgp: Bgp::Update { .. }, .. } => { if !seen.contains(peer) { seen.push(peer.clone()); n += 1; } }
+            Rec::PeerIndex(ps) => { for p in ps { if !seen.contains(p) { seen.push(p.clone()); } } }
+            Rec::Msg { peer, bgp: Bgp::Update { .. }, .. } => { if !seen.contains(peer) { seen.push(peer.clone()); } }
             _ => {} } } }
-        if o.next_id != n { return format!("fail mrt-in:attribution-unstable {} ingress ids registered, {} expected: messages of a known peer did not reuse its id", o.next_id - 1, n - 1); }
+        let n = 2 + seen.len() as u32;
+        if o.next_id != n { return format!("fail mrt-in:attribution-unstable {} ingress ids registered, {} expected: one per distinct peer of the queue", o.next_id - 1, n - 1); }
     }
     if explain(&toks, 0, &o.updates, 0, &o.infos, Lenient { w_optional: false, raw_overlap: false }) { return "ok".into(); }
     if explain(&toks, 0, &o.updates, 0, &o.infos, Lenient { w_optional: true, raw_overlap: false }) { return "fail mrt-in:state-change-never-withdraws an Established->Idle state change of a peer with imported routes produced no Update::Withdraw".into(); }
@@ -457,6 +480,27 @@ fn main() {
     let rt = tokio::runtime::Builder::new_multi_thread().worker_threads(6).enable_all().build().unwrap();
     let mut rec = Recorder::new("queues of 1-3 generated MRT files (TABLE_DUMP_V2 peer index of 1-4 v4/v6 AS2/AS4 peers + 0-5 RIB_IPV4/6_UNICAST records of 1-3 entries; BGP4MP(_AS4) UPDATEs (conventional v4 / MP v6 announce+withdraw), OPEN/KEEPALIVE/garbage, state changes; plain/gzip/bzip2); every other queue has one file spoiled (missing, undecodable gzip, multicast/generic RIB subtype, BGP4MP local subtype, unsupported MRT type, truncated record, empty RIB record, peer index out of range, BGP4MP after a dump, misplaced peer index) through the real MrtInRunner::run; observation = Updates leaving the gate + enqueuer responses + next ingress id; non-trivial = at least one fully importable file and >= 2 updates observed; distinct = distinct case lines");
 
+    // 0. witnesses: decide the variants of this tree (recorded as cases, except in replay mode)
+    let replay = args.replay.is_some();
+    let mut scratch = Recorder::new("variant detection in replay mode (not recorded)");
+    let p1 = Peer { addr: 0, asn: 65001 }; let p2 = Peer { addr: 3, asn: 4200000001 };
+    let dump1 = FileSpec { comp: 'p', recs: vec![Rec::PeerIndex(vec![p1.clone()]), Rec::Rib { v6: false, pfx: 0, entries: vec![(0, 1)] }] };
+    // two dumps naming the same peer (witness of C16_dumpreg_counterexample): as written ids 2 and 3, repaired id 2 twice.
+    // First, because the model needs this site to follow the other witnesses.
+    let o = rt.block_on(run_queue(&dir, &[dump1.clone(), dump1.clone()]));
+    rec.variant("dumpreg", if o.next_id == 3 { "repaired" } else { "as-written" });
+    { let r = if replay { &mut scratch } else { &mut rec };
+    record_case(r, &[dump1.clone(), dump1.clone()], &o);
+    let o = case(&rt, &dir, r, &[dump1.clone(), FileSpec { comp: 'p', recs: vec![Rec::State { as4: true, peer: p1.clone(), old: 6, new: 1 }] }]);
+    let sc = if o.updates.iter().any(|u| matches!(u, Obs::Withdraw(_))) { "repaired" } else { "as-written" };
+    let o = case(&rt, &dir, r, &[FileSpec { comp: 'p', recs: vec![Rec::PeerIndex(vec![p1.clone()]), Rec::RibOther(3)] }, FileSpec { comp: 'p', recs: vec![Rec::PeerIndex(vec![p2.clone()]), Rec::Rib { v6: true, pfx: 1, entries: vec![(0, 2)] }] }]);
+    let iso = if o.responses == vec![true, true] && o.updates.len() == 1 { "repaired" } else { "as-written" };
+    // one UPDATE that withdraws and announces 203.0.113.7/32 (witness of C16_updates_counterexample)
+    let o = case(&rt, &dir, r, &[FileSpec { comp: 'p', recs: vec![Rec::Msg { as4: true, peer: p1.clone(), bgp: Bgp::Update { v6: false, ann: vec![4], wd: vec![4], attrs: 1 } }] }]);
+    let ov = if o.updates.iter().any(|u| matches!(u, Obs::Bulk { items, .. } if items.iter().any(|(act, _)| !*act))) { "as-written" } else { "repaired" };
+    rec.variant("sc", sc); rec.variant("iso", iso); rec.variant("overlap", ov); }
+    drop(scratch);
+
     if let Some(path) = &args.replay {
         for line in verif_harness::replay_cases(path) { if let Some(q) = line.strip_prefix("q|") { let files: Vec<FileSpec> = q.split('#').map(parse_file).collect(); case(&rt, &dir, &mut rec, &files); } }
         rec.finish(&args, t0.elapsed().as_secs_f64());
@@ -464,20 +508,14 @@ fn main() {
         return;
     }
 
-    // 0. witnesses: decide the variants of this tree
-    let p1 = Peer { addr: 0, asn: 65001 }; let p2 = Peer { addr: 3, asn: 4200000001 };
-    let dump1 = FileSpec { comp: 'p', recs: vec![Rec::PeerIndex(vec![p1.clone()]), Rec::Rib { v6: false, pfx: 0, entries: vec![(0, 1)] }] };
-    let o = case(&rt, &dir, &mut rec, &[dump1.clone(), FileSpec { comp: 'p', recs: vec![Rec::State { as4: true, peer: p1.clone(), old: 6, new: 1 }] }]);
-    rec.variant("sc", if o.updates.iter().any(|u| matches!(u, Obs::Withdraw(_))) { "repaired" } else { "as-written" });
-    let o = case(&rt, &dir, &mut rec, &[FileSpec { comp: 'p', recs: vec![Rec::PeerIndex(vec![p1.clone()]), Rec::RibOther(3)] }, FileSpec { comp: 'p', recs: vec![Rec::PeerIndex(vec![p2.clone()]), Rec::Rib { v6: true, pfx: 1, entries: vec![(0, 2)] }] }]);
-    rec.variant("iso", if o.responses == vec![true, true] && o.updates.len() == 1 { "repaired" } else { "as-written" });
-    // one UPDATE that withdraws and announces 203.0.113.7/32 (witness of C16_updates_counterexample)
-    let o = case(&rt, &dir, &mut rec, &[FileSpec { comp: 'p', recs: vec![Rec::Msg { as4: true, peer: p1.clone(), bgp: Bgp::Update { v6: false, ann: vec![4], wd: vec![4], attrs: 1 } }] }]);
-    rec.variant("overlap", if o.updates.iter().any(|u| matches!(u, Obs::Bulk { items, .. } if items.iter().any(|(act, _)| !*act))) { "as-written" } else { "repaired" });
     // corpus: the probes of the design (mixed file, out-of-range index, local subtype, fused iterator)
     for q in ["p:PI 0.65001;R4 0 0.1;M1 0.65001 K#p:PI 3.4200000001;R4 1 0.1", "p:PI 0.65001;R4 0 3.1#p:PI 3.4200000001;R4 1 0.1", "p:M1 0.65001 U4 1 - 2;TR#p:M1 0.65001 G;M1 0.65001 O;L 6#p:M1 0.65001 U4 2 - 2",
               "p:M1 0.65001 U4 1 - 2;OT 12;M1 0.65001 U4 2 - 2", "m:-#x:PI 0.65001#p:PI 3.4200000001;R4 1 0.1", "g:M1 0.65001 U4 0,1 2 1;M0 0.65001 U4 3 - 2;M1 3.4200000001 U6 0 1 3;SC1 0.65001 6 1;M0 0.65001 U4 - 0 0", "p:PI -#p:-",
-              "p:M1 0.65001 U4 4,1 4,2 1;M1 3.4200000001 U6 0,1 1,3 2;M0 0.65001 U4 2,2 2,2,0 3;SC1 0.65001 6 1", "g:PI 0.65001;R4 4 0.1#b:M1 0.65001 U4 4 4 2;M1 0.65001 U4 - 4 0"] {
+              "p:M1 0.65001 U4 4,1 4,2 1;M1 3.4200000001 U6 0,1 1,3 2;M0 0.65001 U4 2,2 2,2,0 3;SC1 0.65001 6 1", "g:PI 0.65001;R4 4 0.1#b:M1 0.65001 U4 4 4 2;M1 0.65001 U4 - 4 0",
+              // dumpreg: the next snapshot of the same collector then a state change; a dump after the peer's messages; one table
+              // listing a peer twice; a known peer among new ones; a dump that names a known peer and then panics
+              "p:PI 0.65001;R4 0 0.1#p:PI 0.65001;R4 0 0.1#p:SC1 0.65001 6 1", "p:M1 0.65001 U4 1 - 2#g:PI 3.4200000001,0.65001;R4 1 1.1,0.2#p:M1 0.65001 U4 2 - 3;SC1 0.65001 6 1",
+              "p:PI 0.65001,0.65001,1.65001;R4 0 0.1,1.2,2.3#p:M1 1.65001 U4 1 - 2", "b:PI 0.65001,1.65002;R6 0 1.1#p:PI 2.64496,1.65002,0.65001;R4 2 0.1,1.2,2.3;R6 1 1.0", "p:PI 0.65001;R4 0 0.1#p:PI 1.65002,0.65001;RO 5#p:M1 0.65001 U4 1 - 2"] {
         let files: Vec<FileSpec> = q.split('#').map(parse_file).collect(); case(&rt, &dir, &mut rec, &files);
     }
 
